@@ -48,6 +48,11 @@ ANCHORS = [
     ("pyanalyze/value.py", "_unpack_sequence_value"),
     ("pyanalyze/value.py", "concrete_values_from_iterable"),
     ("pyanalyze/stacked_scopes.py", "FunctionScope.get_local"),
+    ("pyanalyze/patma.py", "PatmaVisitor.visit_MatchSequence"),
+    ("pyanalyze/patma.py", "PatmaVisitor.visit_MatchAs"),
+    ("pyanalyze/patma.py", "PatmaVisitor.visit_MatchStar"),
+    ("pyanalyze/patma.py", "LenPredicate"),
+    ("pyanalyze/name_check_visitor.py", "NameCheckVisitor.visit_Match"),
     ("pyanalyze/stacked_scopes.py", "FunctionScope.set"),
     ("pyanalyze/stacked_scopes.py", "FunctionScope._add_composite"),
     ("pyanalyze/name_check_visitor.py", "NameCheckVisitor._get_composite"),
@@ -76,6 +81,11 @@ RULE = (
     "parameters and small classes with nested attributes, with narrowing tests on, stores to and reads of composites "
     "x[k1][k2][k3] / x.a.b.c of depth 1-3 and assignments to every proper prefix, in straight-line code, if/else and for "
     "loops; mutation only through the parameter's own name, every stored container is a fresh display / constructor call), "
+    "and in the MATCH stream: one `match` over a subject typed as a fixed tuple (length 0-4), a variadic / unpacked tuple, a "
+    "union of tuples of different lengths, list[T], Sequence[T], str, dict / Mapping, object, with 1-4 cases of sequence "
+    "patterns (star first / middle / last / alone / absent, 0-3 fixed sub-patterns, nested), mapping patterns, captures, "
+    "wildcards, literals, class patterns, or-patterns, as-patterns and guards; the subject and every capture are read in "
+    "every case body and the subject again after the match), "
     "no del, no nested functions; every loop is bounded. Functions in which pyanalyze reports "
     "any diagnostic are not judged (the property speaks about values, not diagnostics); executions in which a callee "
     "receives an argument outside its declared type are cut at that call. A case = one (function, argument tuple) execution; "
@@ -1810,6 +1820,16 @@ def judge_module(fns, arg_sets, stats, on_exec=None):
     runner = Runner(src, fns)
     assert len(nodes) == len(runner.nodes2)
     dec_cache = {}
+    # subject node index of the match statement whose `<pattern> as name` binds (owner, name)
+    as_subject = {}
+    subj_index = {id(n0): k0 for k0, (n0, o0) in enumerate(nodes)}
+    for st0 in tree.body:
+        if isinstance(st0, ast.FunctionDef):
+            for m0 in ast.walk(st0):
+                if isinstance(m0, ast.Match) and id(m0.subject) in subj_index:
+                    for p0 in ast.walk(m0):
+                        if isinstance(p0, ast.MatchAs) and p0.name is not None and p0.pattern is not None:
+                            as_subject.setdefault((st0.name, p0.name), subj_index[id(m0.subject)])
 
     def terms(k):
         node = nodes[k][0]
@@ -1904,6 +1924,8 @@ def judge_module(fns, arg_sets, stats, on_exec=None):
                              "kind": type(node).__name__, "lineno": node.lineno - ranges[owner][0], "col": node.col_offset,
                              "value": repr(val), "inferred": inferred, "never": all(t == ("union", []) for t in ts),
                              "xterms": ts, "pyvalue": val, "top": name,
+                             "subj_xterms": terms(as_subject[(owner, node.id)])
+                             if isinstance(node, ast.Name) and (owner, node.id) in as_subject else None,
                              "what": "%s evaluated to %r, which is not in the inferred %s" % (ast.unparse(node), val, inferred)}
             if first is not None:
                 failures.append(first)
@@ -3004,6 +3026,14 @@ def conforms_to(cls, f):
         return isinstance(val, int) or isinstance(val, float)  # an int / bool (float for complex) dropped by the negative branch
     if cls == "loopConstraintCycle":
         return bool(f.get("never"))
+    if cls == "matchAsNested":
+        # the element constraints were applied to the subject: what is left is Never or some of the subject's own union members
+        def arms(t):
+            return [a for u in t[1] for a in arms(u)] if t is not None and t[0] == "union" else [t]
+        if f.get("never"):
+            return True
+        sub = [a for t in (f.get("subj_xterms") or []) for a in arms(t)]
+        return bool(sub) and None not in sub and all(a in sub for t in ts for a in arms(t))
     if cls == "setDisplayOrder":
         # only the positions are wrong: every element belongs to some member of the inferred form
         def members_of(t):
@@ -3090,6 +3120,14 @@ def classify_requests(failures, fn_src_of):
         fnode, node = find_fail_node(src, f)
         if node is None:
             continue
+        if isinstance(node, ast.Name):
+            for ma in ast.walk(fnode):
+                if isinstance(ma, ast.MatchAs) and ma.name == node.id and ma.pattern is not None and \
+                        (isinstance(ma.pattern, (ast.MatchSequence, ast.MatchMapping)) or
+                         (isinstance(ma.pattern, ast.MatchOr) and any(isinstance(x, (ast.MatchSequence, ast.MatchMapping)) for x in ast.walk(ma.pattern)))):
+                    sub = any(isinstance(x, (ast.MatchValue, ast.MatchSingleton, ast.MatchClass, ast.MatchOr)) for x in ast.walk(ma.pattern))
+                    reqs.append((i, "masq 1 %d" % sub, ["matchAsNested"] if sub else []))
+                    break
         facts = composite_facts(fnode, node) if isinstance(node, (ast.Name, ast.Subscript, ast.Attribute)) else None
         if facts is not None and any(facts):
             mirror = (["compositeInLoop"] if facts[0] else []) + (["compositeStaleParent"] if facts[1] else []) + \
@@ -3135,7 +3173,7 @@ def classify(ctx, failures, fn_src_of, with_model=True):
                 ctx.disagree("cls", {"line": line}, mirror, answers[j])
         else:
             ans = mirror or []
-        f["classes"] = (ans + f.get("classes", [])) if line.startswith(("subl", "comp")) else (f.get("classes", []) + ans)
+        f["classes"] = (ans + f.get("classes", [])) if line.startswith(("subl", "comp", "masq")) else (f.get("classes", []) + ans)
         if line.startswith("cls"):
             f["skeleton"] = line
     for f in failures:
@@ -3380,6 +3418,215 @@ def composite_stream(ctx, stats, feats, on_exec):
     return failures, modules
 
 
+# ------------------------------------------------------------------ the MATCH stream: structural pattern matching (patma.py)
+def _tup(*xs):
+    return ("tuple", list(xs))
+
+
+_I = lambda n: ("int", n)
+_S = lambda z: ("str", z)
+_F = lambda i: ("flt", i)
+MATCH_SUBJECTS = [
+    # (declared type, argument objects)
+    (("seq", TUPLE, [T(INT)]), [_tup(_I(1)), _tup(_I(5))]),
+    (("seq", TUPLE, [T(INT), T(STR)]), [_tup(_I(1), _S("a")), _tup(_I(2), _S(""))]),
+    (("seq", TUPLE, [T(INT), T(STR), T(FLOAT)]), [_tup(_I(1), _S("a"), _F(0)), _tup(_I(2), _S("b"), _F(1))]),
+    (("seq", TUPLE, [T(INT), T(INT), T(INT), T(INT)]), [_tup(_I(1), _I(2), _I(3), _I(4)), _tup(_I(0), _I(0), _I(1), _I(1))]),
+    (("seq", TUPLE, []), [_tup()]),
+    (("generic", TUPLE, [T(INT)]), [_tup(), _tup(_I(1)), _tup(_I(1), _I(2)), _tup(_I(3), _I(1), _I(2)), _tup(_I(1), _I(2), _I(3), _I(4))]),
+    (("seq", TUPLE, [T(INT), ("many", T(STR))]), [_tup(_I(1)), _tup(_I(1), _S("a")), _tup(_I(2), _S("a"), _S("b")), _tup(_I(2), _S("a"), _S("b"), _S("c"))]),
+    (("seq", TUPLE, [("many", T(INT)), T(STR)]), [_tup(_S("a")), _tup(_I(1), _S("a")), _tup(_I(1), _I(2), _S("b")), _tup(_I(1), _I(2), _I(3), _S("b"))]),
+    (("seq", TUPLE, [T(STR), ("many", T(INT)), T(BYTES)]), [_tup(_S("a"), ("bytes", "a")), _tup(_S("a"), _I(1), ("bytes", "")), _tup(_S(""), _I(1), _I(2), ("bytes", "a"))]),
+    (Un(("seq", TUPLE, [T(INT)]), ("seq", TUPLE, [T(INT), T(STR)])), [_tup(_I(1)), _tup(_I(1), _S("a")), _tup(_I(2))]),
+    (Un(("seq", TUPLE, [T(INT), T(STR)]), ("seq", TUPLE, [T(INT), T(STR), T(FLOAT)]), NONE_T), [("none",), _tup(_I(1), _S("a")), _tup(_I(1), _S("a"), _F(0))]),
+    (Un(("seq", TUPLE, [T(INT), T(INT)]), T(INT), T(STR)), [_I(1), _S("a"), _tup(_I(1), _I(2)), _I(2), _S("ab")]),
+    (Un(("generic", TUPLE, [T(INT)]), ("generic", LIST, [T(STR)])), [_tup(_I(1), _I(2)), ("list", [_S("a")]), ("list", []), _tup()]),
+    (("generic", LIST, [T(INT)]), [("list", []), ("list", [_I(1)]), ("list", [_I(1), _I(2)]), ("list", [_I(1), _I(2), _I(3)])]),
+    (("generic", LIST, [Un(T(INT), T(STR))]), [("list", [_I(1), _S("a")]), ("list", [_S("a")]), ("list", [_S("a"), _I(2), _I(1)])]),
+    (("generic", SEQUENCE, [T(INT)]), [("list", [_I(1), _I(2)]), _tup(_I(1)), _tup(), ("list", [_I(1), _I(2), _I(3)])]),
+    (T(STR), [_S(""), _S("a"), _S("ab")]),
+    (Un(T(STR), ("generic", LIST, [T(STR)])), [_S("ab"), ("list", [_S("a"), _S("b")]), ("list", [])]),
+    (("generic", DICT, [T(STR), T(INT)]), [("dict", [], []), ("dict", [_S("a")], [_I(1)]), ("dict", [_S("a"), _S("b")], [_I(1), _I(2)])]),
+    (("generic", MAPPING, [T(STR), Un(T(INT), NONE_T)]), [("dict", [_S("a")], [("none",)]), ("dict", [_S("a"), _S("b")], [_I(1), ("none",)])]),
+    (Un(("generic", DICT, [T(STR), T(INT)]), ("seq", TUPLE, [T(INT), T(INT)]), NONE_T), [("none",), ("dict", [_S("a")], [_I(1)]), _tup(_I(1), _I(2))]),
+    (OBJECT_T, [_I(1), _S("a"), _tup(_I(1), _S("a")), ("list", [_I(1)]), ("none",), ("dict", [_S("a")], [_I(1)])]),
+]
+
+
+class MatchGen:
+    def __init__(self, rng, name, feats):
+        self.rng, self.name, self.feats = rng, name, feats
+        self.counter = 0
+
+    def feat(self, k):
+        self.feats["m_" + k] = self.feats.get("m_" + k, 0) + 1
+
+    def cap(self):
+        self.counter += 1
+        return "c%d" % self.counter
+
+    def sub(self, depth, caps, bind=True):
+        """a sub-pattern; `caps` collects the capture names it binds"""
+        rng = self.rng
+        r = rng.random()
+        if r < 0.32 and bind:
+            c = self.cap()
+            caps.append(c)
+            return c
+        if r < 0.45:
+            return "_"
+        if r < 0.60:
+            return rng.choice(["1", "2", "'a'", "'b'", "None", "0", "''"])
+        if r < 0.74:
+            cls = rng.choice(["int", "str", "float", "tuple", "list", "bytes"])
+            if bind and rng.random() < 0.4:
+                c = self.cap()
+                caps.append(c)
+                return "%s() as %s" % (cls, c) if rng.random() < 0.5 or cls in ("tuple", "list") else "%s(%s)" % (cls, c)
+            return cls + "()"
+        if r < 0.82:
+            return rng.choice(["1 | 2", "int() | str()", "'a' | 'b'", "None | 0", "int() | None"])
+        if depth > 0 and r < 0.95:
+            return self.seq(depth - 1, caps, bind)
+        if depth > 0:
+            return self.mapping(depth - 1, caps, bind)
+        return "_"
+
+    def seq(self, depth, caps, bind=True):
+        rng = self.rng
+        n = rng.choice([0, 1, 1, 2, 2, 3])
+        star = rng.choice(["none", "first", "middle", "last", "alone", "first", "last"])
+        if star == "alone":
+            n = 0
+        subs = [self.sub(depth, caps, bind) for _ in range(n)]
+        if star != "none":
+            if bind and rng.random() < 0.7:
+                c = self.cap()
+                caps.append(c)
+                st = "*" + c
+            else:
+                st = "*_"
+            if star == "alone":
+                subs = [st]
+            elif star == "first":
+                subs = [st] + subs
+            elif star == "last":
+                subs = subs + [st]
+            else:
+                k = len(subs) // 2 if len(subs) >= 2 else len(subs)
+                subs = subs[:k] + [st] + subs[k:]
+        self.feat("seq_star_%s_fixed%d" % (star, n))
+        if rng.random() < 0.5:
+            return "[%s]" % ", ".join(subs)
+        return "(%s%s)" % (", ".join(subs), "," if len(subs) == 1 else "")
+
+    def mapping(self, depth, caps, bind=True):
+        rng = self.rng
+        keys = rng.sample(["a", "b", "z"], rng.choice([0, 1, 1, 2]))
+        items = ["%r: %s" % (k, self.sub(depth, caps, bind)) for k in keys]
+        if bind and rng.random() < 0.3:
+            c = self.cap()
+            caps.append(c)
+            items.append("**" + c)
+        self.feat("mapping")
+        return "{%s}" % ", ".join(items)
+
+    def top(self, caps, last):
+        rng = self.rng
+        r = rng.random()
+        if r < 0.62:
+            pat = self.seq(2, caps)
+        elif r < 0.72:
+            pat = self.mapping(1, caps)
+        elif r < 0.8:
+            # or-pattern of sequence shapes (no bindings: the alternatives would have to bind the same names)
+            pat = "%s | %s" % (self.seq(1, [], bind=False), self.seq(1, [], bind=False))
+            self.feat("or_of_sequences")
+        else:
+            mine = []
+            pat = self.sub(0, mine)
+            if pat in ("_",) or (pat.isidentifier() and not last):
+                pat, mine = "int()", []
+            caps += mine
+        if rng.random() < 0.15:
+            c = self.cap()
+            caps.append(c)
+            pat = "%s as %s" % (pat if "|" not in pat and " as " not in pat else "(%s)" % pat, c)
+            self.feat("as_pattern")
+        return pat
+
+    def generate(self):
+        rng = self.rng
+        ty, objs = rng.choice(MATCH_SUBJECTS)
+        head = "def %s(s: %s, q: Optional[int], c: bool) -> int:" % (self.name, ty_src(ty))
+        for _attempt in range(8):
+            self.counter = 0
+            lines = ["    match s:"]
+            ncases = rng.choice([1, 2, 2, 3, 4])
+            for i in range(ncases):
+                caps = []
+                pat = self.top(caps, last=(i == ncases - 1))
+                guard = ""
+                if rng.random() < 0.2:
+                    guard = rng.choice([" if c", " if q is None", " if q is not None", " if not c"])
+                    self.feat("guard")
+                lines.append("        case %s%s:" % (pat, guard))
+                self.counter += 1
+                lines.append("            v%d = s" % self.counter)
+                for cc in caps:
+                    self.counter += 1
+                    lines.append("            v%d = %s" % (self.counter, cc))
+                if not caps:
+                    lines.append("            pass")
+            if rng.random() < 0.4:
+                lines.append("        case _:")
+                self.counter += 1
+                lines.append("            v%d = s" % self.counter)
+                self.feat("wildcard_case")
+            self.counter += 1
+            lines.append("    v%d = s" % self.counter)
+            lines.append("    return 0")
+            src = "\n".join([head] + lines)
+            try:
+                compile(PRELUDE_HEAD + src, "<m>", "exec")
+                break
+            except SyntaxError:
+                self.feat("regenerated_after_SyntaxError")
+                continue
+        else:
+            src = head + "\n    return 0"
+        argsets = [[o, rng.choice([("none",), _I(1)]), ("bool", rng.choice([0, 1]))] for o in objs]
+        return {"name": self.name, "ptypes": [ty, Un(T(INT), NONE_T), T(BOOL)], "ret": T(INT), "src": src, "num_eq": False}, argsets
+
+
+def match_stream(ctx, stats, feats, on_exec):
+    rng = ctx.rng
+    n_fns = ctx.n(250, 5000)
+    per_mod = 25
+    failures, modules = [], {}
+    for m in range((n_fns + per_mod - 1) // per_mod):
+        fns, args = [], {}
+        for i in range(per_mod):
+            f, a = MatchGen(rng, "m%d" % i, feats).generate()
+            fns.append(f)
+            args[f["name"]] = a
+        try:
+            fl, _ = judge_module(fns, args, stats, on_exec)
+        except Exception as e:
+            ctx.notes.append("match module %d: %s" % (m, traceback.format_exc()[-600:]))
+            ctx.tag("module_crash_" + type(e).__name__)
+            continue
+        if m == 0 and fns:
+            ctx.sample({"match_function": fns[0]["src"]})
+        for f in fl:
+            f["module"] = id(fns)
+            f["stream"] = "match"
+        if fl:
+            modules[id(fns)] = fns
+        failures += fl
+    return failures, modules
+
+
 def corpus_entries():
     path = os.path.join(lean.HERE, "corpus", "C01.jsonl")
     out = []
@@ -3479,6 +3726,9 @@ def exec_stream(ctx, with_model=True):
     cfl, cmods = composite_stream(ctx, stats, feats, on_exec)
     all_failures += cfl
     modules.update(cmods)
+    mfl, mmods = match_stream(ctx, stats, feats, on_exec)
+    all_failures += mfl
+    modules.update(mmods)
     for k, v in stats.items():
         ctx.tag("x_" + k, v)
     for k, v in feats.items():
